@@ -250,6 +250,19 @@ pub fn fork(kind: ForkKind, cfg_a: &Cfg, cfg_b: &Cfg, head_a: &[Op], head_b: &[O
         b.owned.clear();
         b.inbox.clear();
     }
+    if kind == ForkKind::Version && !head_a.is_empty() {
+        for x in [&mut a, &mut b] {
+            if x.w.failed() {
+                continue;
+            }
+            if x.w.m.st != St::Disc || x.w.want_close {
+                x.exec(&Op::Close { partial: 0 });
+            }
+            x.w.crash_restore(ExportMangle::None);
+            x.owned.clear();
+            x.inbox.clear();
+        }
+    }
     let prop: &'static str = match kind {
         ForkKind::Crash => "C16",
         ForkKind::Fresh => "C10",
